@@ -238,7 +238,9 @@ class Gen:
             atoms.append(n)
         for s in self.strs + self.raws:
             atoms.append("%s.len" % s["name"])
-            atoms.append("%s[%d]" % (s["name"], r.choice((0, 0, 1, s["size"] - 1))))
+            if not self.bias.get("noindex"):
+                # reading beyond the current length yields whatever the storage holds (representation dependent)
+                atoms.append("%s[%d]" % (s["name"], r.choice((0, 0, 1, s["size"] - 1))))
         a = r.choice(atoms)
         k = r.random()
         if k < 0.35:
@@ -256,7 +258,8 @@ class Gen:
             c.append("%s %s %d" % (n, r.choice(("<", ">", "==", "!=", ">=")), r.choice((0, 1, 2, 5, 20))))
         for s in self.strs:
             c.append("%s.len %s %d" % (s["name"], r.choice((">", "<", "==")), r.choice((0, 1, s["size"] - 1))))
-            c.append("%s[0] == '%s'" % (s["name"], chr(r.choice(LETTERS))))
+            if not self.bias.get("noindex"):
+                c.append("%s[0] == '%s'" % (s["name"], chr(r.choice(LETTERS))))
         for b in self.bools:
             c.append(b)
             c.append("!%s" % b)
